@@ -189,11 +189,12 @@ def factor_path(I: Interp, ps: PathState) -> Dict[str, Any]:
         if phase != "prefix":
             return {"obligations": [], "labels": list(ps.labels), "skip": True}
         if isinstance(early, DictObj) and not early.items:
-            ob("zero-gives-the-empty-table", _valid(ps, v == 0), f"{early}")
+            # only NaN has no table at all; a number (the symbolic value here) always has the pair 1 * value
+            ob("only-NaN-gives-the-empty-table", False, f"empty table for a number: {early}")
         elif isinstance(early, DictObj):
             items = list(early.items.items())
             ok = len(items) == 1 and items[0][0] == 1 and items[0][1] is value
-            ob("negative-value-gives-{1: value}", ok and _valid(ps, v < 0), f"{early}")
+            ob("non-positive-value-gives-{1: value}", ok and _valid(ps, v <= 0), f"{early}")
         else:
             ob("early-return-is-a-table", False, repr(early))
         return {"obligations": obl, "labels": list(ps.labels)}
